@@ -94,12 +94,6 @@ Ltac step_inv H :=
       try discriminate Hs; inv_some ]
   end.
 
-Section Fixed.
-Variable cap : nat.
-
-Notation step := (stepf fixed cap).
-Notation reachf := (reach fixed cap).
-
 (* ------------------------------------------------------------------ *)
 (* generic tactics                                                     *)
 
@@ -170,7 +164,7 @@ Proof.
   - lia.
 Qed.
 
-Lemma invA_step s l s' : InvA s -> step s l = Some s' -> InvA s'.
+Lemma invA_step cap s l s' : InvA s -> stepf fixed cap s l = Some s' -> InvA s'.
 Proof.
   intros (A1 & A2 & A3 & (thw & A4) & A5) H.
   step_inv H; unfold InvA; cbn_st; split_all;
@@ -190,7 +184,7 @@ Proof.
     + rewrite updf_other by assumption. rewrite updf_other by lia. eauto.
 Qed.
 
-Theorem invA_reach s : reachf s -> InvA s.
+Theorem invA_reach cap s : reach fixed cap s -> InvA s.
 Proof. apply invariant_reachable; [apply invA_init|apply invA_step]. Qed.
 
 (* ------------------------------------------------------------------ *)
@@ -219,7 +213,7 @@ Definition B_amu (s : st) : Prop :=
     amu s (t_h th) = Some t.
 Definition B_smu (s : st) : Prop :=
   forall t th, threads s t = Some th -> in_smu (t_pc th) = true -> smu s (t_h th) = Some t.
-Definition B_sem (s : st) : Prop :=
+Definition B_sem (cap : nat) (s : st) : Prop :=
   forall t th, threads s t = Some th -> is_async (t_kind th) = true -> has_permit (t_pc th) = true ->
     cap <> 0 -> In t (sem s).
 Definition B_pt (s : st) : Prop :=
@@ -235,7 +229,7 @@ Definition G_amu (s : st) : Prop :=
 Definition G_smu (s : st) : Prop :=
   forall h t, smu s h = Some t ->
     exists th, threads s t = Some th /\ in_smu (t_pc th) = true /\ t_h th = h.
-Definition G_sem (s : st) : Prop :=
+Definition G_sem (cap : nat) (s : st) : Prop :=
   (forall t, In t (sem s) ->
      exists th, threads s t = Some th /\ is_async (t_kind th) = true /\ has_permit (t_pc th) = true) /\
   NoDup (sem s) /\ (cap <> 0 -> List.length (sem s) <= cap) /\ (cap = 0 -> sem s = []).
@@ -243,9 +237,9 @@ Definition G_map (s : st) : Prop :=
   forall p h, hmap s p = Some h -> hpub s h = p /\ h < next_hid s.
 Definition G_pan (s : st) : Prop := panicked s = false.
 
-Definition InvB (s : st) : Prop :=
-  B_ref s /\ B_amu s /\ B_smu s /\ B_sem s /\ B_pt s /\
-  G_pt1 s /\ G_pt2 s /\ G_amu s /\ G_smu s /\ G_sem s /\ G_map s /\ G_pan s.
+Definition InvB (cap : nat) (s : st) : Prop :=
+  B_ref s /\ B_amu s /\ B_smu s /\ B_sem cap s /\ B_pt s /\
+  G_pt1 s /\ G_pt2 s /\ G_amu s /\ G_smu s /\ G_sem cap s /\ G_map s /\ G_pan s.
 
 Ltac destruct_B I :=
   destruct I as (Bref & Bamu & Bsmu & Bsem & Bpt & Gpt1 & Gpt2 & Gamu & Gsmu & Gsem & Gmap & Gpan).
@@ -278,7 +272,7 @@ Ltac step_kind A2 :=
     cbn in K; try discriminate K; clear K
   end.
 
-Lemma B_smu_step s l s' : InvA s -> InvB s -> step s l = Some s' -> B_smu s'.
+Lemma B_smu_step cap s l s' : InvA s -> InvB cap s -> stepf fixed cap s l = Some s' -> B_smu s'.
 Proof.
   intros (A1 & A2 & A3 & A4 & A5) I H. destruct_B I.
   step_inv H; unfold B_smu; cbn_st; try assumption; step_kind A2;
@@ -289,7 +283,7 @@ Proof.
     use_impl; updf_split; done.
 Qed.
 
-Lemma B_amu_step s l s' : InvA s -> InvB s -> step s l = Some s' -> B_amu s'.
+Lemma B_amu_step cap s l s' : InvA s -> InvB cap s -> stepf fixed cap s l = Some s' -> B_amu s'.
 Proof.
   intros (A1 & A2 & A3 & A4 & A5) I H. destruct_B I.
   step_inv H; unfold B_amu; cbn_st; try assumption; step_kind A2;
@@ -316,7 +310,7 @@ Ltac in_list :=
   end;
   try (apply in_remove_tid_other; [congruence || lia|]).
 
-Lemma B_ref_step s l s' : InvA s -> InvB s -> step s l = Some s' -> B_ref s'.
+Lemma B_ref_step cap s l s' : InvA s -> InvB cap s -> stepf fixed cap s l = Some s' -> B_ref s'.
 Proof.
   intros (A1 & A2 & A3 & A4 & A5) I H. destruct_B I.
   step_inv H; unfold B_ref; cbn_st; try assumption; step_kind A2;
@@ -333,7 +327,7 @@ Proof.
     assert (E : a = b) by congruence; rewrite E in Hin; rewrite Hr in Hin; destruct Hin end.
 Qed.
 
-Lemma B_sem_step s l s' : InvA s -> InvB s -> step s l = Some s' -> B_sem s'.
+Lemma B_sem_step cap s l s' : InvA s -> InvB cap s -> stepf fixed cap s l = Some s' -> B_sem cap s'.
 Proof.
   intros (A1 & A2 & A3 & A4 & A5) I H. destruct_B I.
   step_inv H; unfold B_sem; cbn_st; try assumption; step_kind A2;
@@ -344,7 +338,7 @@ Proof.
     use_impl; done; in_list; done; auto.
 Qed.
 
-Lemma B_pt_step s l s' : InvA s -> InvB s -> step s l = Some s' -> B_pt s'.
+Lemma B_pt_step cap s l s' : InvA s -> InvB cap s -> stepf fixed cap s l = Some s' -> B_pt s'.
 Proof.
   intros (A1 & A2 & A3 & A4 & A5) I H. destruct_B I.
   step_inv H; unfold B_pt, pretake in *; cbn_st; try assumption; step_kind A2;
@@ -358,7 +352,7 @@ Proof.
   exfalso. apply Gpt1 in Hpend. congruence.
 Qed.
 
-Lemma G_pt1_step s l s' : InvA s -> InvB s -> step s l = Some s' -> G_pt1 s'.
+Lemma G_pt1_step cap s l s' : InvA s -> InvB cap s -> stepf fixed cap s l = Some s' -> G_pt1 s'.
 Proof.
   intros (A1 & A2 & A3 & A4 & A5) I H. destruct_B I.
   step_inv H; unfold G_pt1; cbn_st; try assumption;
@@ -388,7 +382,7 @@ Ltac ex_thread :=
             | rewrite (updf_other f u (Some n) x E) ] ]
   end.
 
-Lemma G_pt2_step s l s' : InvA s -> InvB s -> step s l = Some s' -> G_pt2 s'.
+Lemma G_pt2_step cap s l s' : InvA s -> InvB cap s -> stepf fixed cap s l = Some s' -> G_pt2 s'.
 Proof.
   intros (A1 & A2 & A3 & A4 & A5) I H. destruct_B I.
   step_inv H; unfold G_pt2, pretake in *; cbn_st; try assumption; step_kind A2;
@@ -412,7 +406,7 @@ Ltac no_panic :=
          specialize (Q eq_refl); congruence
        end).
 
-Lemma G_amu_step s l s' : InvA s -> InvB s -> step s l = Some s' -> G_amu s'.
+Lemma G_amu_step cap s l s' : InvA s -> InvB cap s -> stepf fixed cap s l = Some s' -> G_amu s'.
 Proof.
   intros (A1 & A2 & A3 & A4 & A5) I H. destruct_B I.
   step_inv H; no_panic; unfold G_amu in *; cbn_st; try assumption; step_kind A2;
@@ -424,7 +418,7 @@ Proof.
     try (exfalso; match goal with X : threads s (next_tid s) = Some _ |- _ => pose proof (A1 _ _ X); lia end).
 Qed.
 
-Lemma G_smu_step s l s' : InvA s -> InvB s -> step s l = Some s' -> G_smu s'.
+Lemma G_smu_step cap s l s' : InvA s -> InvB cap s -> stepf fixed cap s l = Some s' -> G_smu s'.
 Proof.
   intros (A1 & A2 & A3 & A4 & A5) I H. destruct_B I.
   step_inv H; no_panic; unfold G_smu in *; cbn_st; try assumption; step_kind A2;
@@ -436,7 +430,7 @@ Proof.
     try (exfalso; match goal with X : threads s (next_tid s) = Some _ |- _ => pose proof (A1 _ _ X); lia end).
 Qed.
 
-Lemma G_map_step s l s' : InvA s -> InvB s -> step s l = Some s' -> G_map s'.
+Lemma G_map_step cap s l s' : InvA s -> InvB cap s -> stepf fixed cap s l = Some s' -> G_map s'.
 Proof.
   intros (A1 & A2 & A3 & A4 & A5) I H. destruct_B I.
   step_inv H; no_panic; unfold G_map in *; cbn_st; try assumption;
@@ -444,7 +438,7 @@ Proof.
     try (destruct (Gmap _ _ Hp)); done.
 Qed.
 
-Lemma G_pan_step s l s' : InvA s -> InvB s -> step s l = Some s' -> G_pan s'.
+Lemma G_pan_step cap s l s' : InvA s -> InvB cap s -> stepf fixed cap s l = Some s' -> G_pan s'.
 Proof.
   intros (A1 & A2 & A3 & A4 & A5) I H. destruct_B I.
   step_inv H; no_panic; unfold G_pan in *; cbn_st; assumption.
@@ -462,7 +456,7 @@ Proof.
   destruct (Nat.eq_dec t a); cbn; lia.
 Qed.
 
-Lemma G_sem_step s l s' : InvA s -> InvB s -> step s l = Some s' -> G_sem s'.
+Lemma G_sem_step cap s l s' : InvA s -> InvB cap s -> stepf fixed cap s l = Some s' -> G_sem cap s'.
 Proof.
   intros (A1 & A2 & A3 & A4 & A5) I H. destruct_B I.
   destruct Gsem as (S1 & S2 & S3 & S4).
@@ -492,7 +486,7 @@ Proof.
   cbn. destruct (Nat.eqb_spec t 0); [|discriminate]. intro H. inversion H. auto.
 Qed.
 
-Lemma invB_init : InvB init.
+Lemma invB_init cap : InvB cap init.
 Proof.
   unfold InvB. split_all.
   - intros t th H Hc. apply init_thread in H. destruct H; subst. discriminate.
@@ -509,7 +503,7 @@ Proof.
   - reflexivity.
 Qed.
 
-Lemma invB_step s l s' : InvA s -> InvB s -> step s l = Some s' -> InvB s'.
+Lemma invB_step cap s l s' : InvA s -> InvB cap s -> stepf fixed cap s l = Some s' -> InvB cap s'.
 Proof.
   intros A B H. unfold InvB. split_all.
   - eapply B_ref_step; eauto.
@@ -526,10 +520,10 @@ Proof.
   - eapply G_pan_step; eauto.
 Qed.
 
-Theorem invB_reach s : reachf s -> InvB s.
+Theorem invB_reach cap s : reach fixed cap s -> InvB cap s.
 Proof.
-  apply (invariant_reachable2 step InvA InvB).
-  - intros s0 R. apply invA_reach. exact R.
+  apply (invariant_reachable2 (stepf fixed cap) InvA (InvB cap)).
+  - intros s0 R. eapply invA_reach. exact R.
   - apply invB_init.
   - intros s0 l s1 A B H. eapply invB_step; eauto.
 Qed.
@@ -541,13 +535,13 @@ Lemma in_session_has_h p : in_session p = true -> has_h p = true /\ in_smu p = t
 Proof. destruct p; cbn; intro; try discriminate; auto. Qed.
 
 (* at most one thread is inside handler.handle for a publisher *)
-Theorem one_sync_per_publisher s t1 t2 th1 th2 :
-  reachf s ->
+Theorem one_sync_per_publisher cap s t1 t2 th1 th2 :
+  reach fixed cap s ->
   threads s t1 = Some th1 -> threads s t2 = Some th2 ->
   in_session (t_pc th1) = true -> in_session (t_pc th2) = true ->
   t_pub th1 = t_pub th2 -> t1 = t2.
 Proof.
-  intros R H1 H2 S1 S2 E. pose proof (invB_reach _ R) as I. destruct_B I.
+  intros R H1 H2 S1 S2 E. pose proof (invB_reach _ _ R) as I. destruct_B I.
   apply in_session_has_h in S1. apply in_session_has_h in S2. destruct S1 as [Sa Sb]. destruct S2 as [Sc Sd].
   destruct (Bref _ _ H1 Sa) as (_ & M1 & _). destruct (Bref _ _ H2 Sc) as (_ & M2 & _).
   pose proof (Bsmu _ _ H1 Sb) as L1. pose proof (Bsmu _ _ H2 Sd) as L2.
@@ -555,13 +549,13 @@ Proof.
 Qed.
 
 (* the same for the whole critical section (stop CID read ... event sent) *)
-Theorem one_critical_section_per_publisher s t1 t2 th1 th2 :
-  reachf s ->
+Theorem one_critical_section_per_publisher cap s t1 t2 th1 th2 :
+  reach fixed cap s ->
   threads s t1 = Some th1 -> threads s t2 = Some th2 ->
   in_smu (t_pc th1) = true -> in_smu (t_pc th2) = true ->
   t_pub th1 = t_pub th2 -> t1 = t2.
 Proof.
-  intros R H1 H2 S1 S2 E. pose proof (invB_reach _ R) as I. destruct_B I.
+  intros R H1 H2 S1 S2 E. pose proof (invB_reach _ _ R) as I. destruct_B I.
   assert (Sa : has_h (t_pc th1) = true) by (destruct (t_pc th1); cbn in *; congruence).
   assert (Sc : has_h (t_pc th2) = true) by (destruct (t_pc th2); cbn in *; congruence).
   destruct (Bref _ _ H1 Sa) as (_ & M1 & _). destruct (Bref _ _ H2 Sc) as (_ & M2 & _).
@@ -570,24 +564,24 @@ Proof.
 Qed.
 
 (* all threads that use a publisher use the same handler object *)
-Theorem handler_unique s t1 t2 th1 th2 :
-  reachf s ->
+Theorem handler_unique cap s t1 t2 th1 th2 :
+  reach fixed cap s ->
   threads s t1 = Some th1 -> threads s t2 = Some th2 ->
   has_h (t_pc th1) = true -> has_h (t_pc th2) = true ->
   t_pub th1 = t_pub th2 -> t_h th1 = t_h th2.
 Proof.
-  intros R H1 H2 S1 S2 E. pose proof (invB_reach _ R) as I. destruct_B I.
+  intros R H1 H2 S1 S2 E. pose proof (invB_reach _ _ R) as I. destruct_B I.
   destruct (Bref _ _ H1 S1) as (_ & M1 & _). destruct (Bref _ _ H2 S2) as (_ & M2 & _).
   congruence.
 Qed.
 
 (* no more announce-triggered goroutines past the semaphore than its capacity *)
-Theorem async_bounded_by_cap s (l : list nat) :
-  reachf s -> cap <> 0 -> NoDup l ->
+Theorem async_bounded_by_cap cap s (l : list nat) :
+  reach fixed cap s -> cap <> 0 -> NoDup l ->
   (forall t, In t l -> exists th, threads s t = Some th /\ is_async (t_kind th) = true /\ has_permit (t_pc th) = true) ->
   List.length l <= cap.
 Proof.
-  intros R Hc Hn Hl. pose proof (invB_reach _ R) as I. destruct_B I.
+  intros R Hc Hn Hl. pose proof (invB_reach _ _ R) as I. destruct_B I.
   destruct Gsem as (S1 & S2 & S3 & S4).
   assert (Hincl : incl l (sem s)).
   { intros t Ht. destruct (Hl _ Ht) as (th & X1 & X2 & X3). eapply Bsem; eauto. }
@@ -595,8 +589,8 @@ Proof.
 Qed.
 
 (* in particular: announce-triggered syncs inside handler.handle *)
-Corollary async_sessions_bounded_by_cap s (l : list nat) :
-  reachf s -> cap <> 0 -> NoDup l ->
+Corollary async_sessions_bounded_by_cap cap s (l : list nat) :
+  reach fixed cap s -> cap <> 0 -> NoDup l ->
   (forall t, In t l -> exists th, threads s t = Some th /\ is_async (t_kind th) = true /\ in_session (t_pc th) = true) ->
   List.length l <= cap.
 Proof.
@@ -607,13 +601,13 @@ Qed.
 
 (* pending <> nil  <->  exactly one goroutine of that handler (or the watcher about to
    spawn it) has not yet taken *)
-Theorem pending_has_taker s h :
-  reachf s ->
+Theorem pending_has_taker cap s h :
+  reach fixed cap s ->
   (pending s h <> None <-> exists t th, threads s t = Some th /\ pretake th = true /\ t_h th = h) /\
   (forall t1 t2 th1 th2, threads s t1 = Some th1 -> threads s t2 = Some th2 ->
      pretake th1 = true -> pretake th2 = true -> t_h th1 = h -> t_h th2 = h -> t1 = t2).
 Proof.
-  intros R. pose proof (invB_reach _ R) as I. destruct_B I. split.
+  intros R. pose proof (invB_reach _ _ R) as I. destruct_B I. split.
   - split.
     + intro Hp. destruct (ptaker s h) as [t|] eqn:E.
       * destruct (Gpt2 _ _ E) as (th & X1 & X2 & X3). eauto.
@@ -625,13 +619,13 @@ Proof.
 Qed.
 
 (* asyncSyncAdChain never dereferences a nil message *)
-Theorem take_never_nil s : reachf s -> panicked s = false.
-Proof. intro R. pose proof (invB_reach _ R) as I. destruct_B I. exact Gpan. Qed.
+Theorem take_never_nil cap s : reach fixed cap s -> panicked s = false.
+Proof. intro R. pose proof (invB_reach _ _ R) as I. destruct_B I. exact Gpan. Qed.
 
-Theorem take_finds_message s t th :
-  reachf s -> threads s t = Some th -> t_pc th = GTake -> pending s (t_h th) <> None.
+Theorem take_finds_message cap s t th :
+  reach fixed cap s -> threads s t = Some th -> t_pc th = GTake -> pending s (t_h th) <> None.
 Proof.
-  intros R H Hpc Hp. pose proof (invB_reach _ R) as I. destruct_B I.
+  intros R H Hpc Hp. pose proof (invB_reach _ _ R) as I. destruct_B I.
   apply Gpt1 in Hp. pose proof (Bpt _ _ H) as Q. unfold pretake in Q. rewrite Hpc in Q.
   specialize (Q eq_refl). congruence.
 Qed.
@@ -642,7 +636,7 @@ Qed.
 Definition nonblocking (p : pc) : bool :=
   match p with WNext | Fin | GStart | GAcq | PLockS => false | _ => true end.
 
-Lemma nonblocking_enabled s t th :
+Lemma nonblocking_enabled cap s t th :
   threads s t = Some th -> nonblocking (t_pc th) = true -> enabled fixed cap s t.
 Proof.
   intros H N. unfold enabled, stepf; cbn [stepo]. rewrite H. unfold step_thread.
@@ -650,17 +644,19 @@ Proof.
     try (exists true; eexists; reflexivity).
   all: exists true;
     repeat match goal with
-    | |- context [let '(_, _) := ?x in _] => destruct x
-    | |- context [match ?x with _ => _ end] => destruct x
-    | |- context [if ?x then _ else _] => destruct x
+    | |- context [match ?x with _ => _ end] =>
+      lazymatch x with
+      | context [match _ with _ => _ end] => fail
+      | _ => destruct x
+      end
     end; eexists; reflexivity.
 Qed.
 
 Lemma in_smu_nonblocking p : in_smu p = true -> nonblocking p = true.
 Proof. destruct p; cbn; congruence. Qed.
 
-Lemma lockS_enabled_or_holder s t th :
-  InvB s -> threads s t = Some th -> t_pc th = PLockS -> exists t', enabled fixed cap s t'.
+Lemma lockS_enabled_or_holder cap s t th :
+  InvB cap s -> threads s t = Some th -> t_pc th = PLockS -> exists t', enabled fixed cap s t'.
 Proof.
   intros I H Hpc. destruct_B I.
   destruct (smu s (t_h th)) as [t1|] eqn:E.
@@ -670,31 +666,33 @@ Proof.
     cbn. exists true. eexists; reflexivity.
 Qed.
 
-Lemma permit_enabled_or_holder s t th :
-  InvB s -> threads s t = Some th -> has_permit (t_pc th) = true -> exists t', enabled fixed cap s t'.
+Lemma permit_enabled_or_holder cap s t th :
+  InvB cap s -> threads s t = Some th -> has_permit (t_pc th) = true -> exists t', enabled fixed cap s t'.
 Proof.
   intros I H Hp. destruct (t_pc th) eqn:Hpc; try discriminate Hp;
     try (exists t; eapply nonblocking_enabled; [eassumption|rewrite Hpc; reflexivity]).
   eapply lockS_enabled_or_holder; eauto.
 Qed.
 
-Lemma acq_enabled_or_holder s t th :
-  InvB s -> threads s t = Some th -> t_pc th = GAcq -> exists t', enabled fixed cap s t'.
+Lemma acq_enabled_or_holder cap s t th :
+  InvB cap s -> threads s t = Some th -> t_pc th = GAcq -> exists t', enabled fixed cap s t'.
 Proof.
   intros I H Hpc. pose proof I as I'. destruct_B I. destruct Gsem as (S1 & S2 & S3 & S4).
-  destruct cap as [|c] eqn:Hc.
-  - exists t. unfold enabled, stepf; cbn [stepo]. rewrite H. unfold step_thread. rewrite Hpc.
-    exists true. eexists; reflexivity.
-  - destruct (List.length (sem s) <? S c) eqn:Hl.
-    + exists t. unfold enabled, stepf; cbn [stepo]. rewrite H. unfold step_thread. rewrite Hpc, Hl.
-      exists true. eexists; reflexivity.
-    + apply Nat.ltb_ge in Hl. destruct (sem s) as [|t1 r] eqn:Es; [cbn in Hl; lia|].
-      destruct (S1 t1 (or_introl eq_refl)) as (th1 & X1 & X2 & X3).
-      eapply permit_enabled_or_holder; eauto.
+  assert (Hen : cap = 0 \/ List.length (sem s) < cap -> enabled fixed cap s t).
+  { clear - H Hpc. intro Hc. unfold enabled, stepf; cbn [stepo]. rewrite H. unfold step_thread. rewrite Hpc.
+    destruct cap as [|c].
+    - exists true. eexists; reflexivity.
+    - destruct Hc as [Hc|Hc]; [discriminate|]. apply Nat.ltb_lt in Hc. rewrite Hc.
+      exists true. eexists; reflexivity. }
+  destruct (Nat.eq_dec cap 0) as [Hz|Hz]; [exists t; apply Hen; auto|].
+  destruct (lt_dec (List.length (sem s)) cap) as [Hl|Hl]; [exists t; apply Hen; auto|].
+  destruct (sem s) as [|t1 r] eqn:Es; [cbn in Hl; lia|].
+  destruct (S1 t1 (or_introl eq_refl)) as (th1 & X1 & X2 & X3).
+  eapply permit_enabled_or_holder; eauto.
 Qed.
 
-Lemma amu_enabled_or_holder s t th :
-  InvB s -> threads s t = Some th -> in_amu (t_pc th) = true -> exists t', enabled fixed cap s t'.
+Lemma amu_enabled_or_holder cap s t th :
+  InvB cap s -> threads s t = Some th -> in_amu (t_pc th) = true -> exists t', enabled fixed cap s t'.
 Proof.
   intros I H Hp. destruct (t_pc th) eqn:Hpc; try discriminate Hp;
     try (exists t; eapply nonblocking_enabled; [eassumption|rewrite Hpc; reflexivity]).
@@ -704,10 +702,10 @@ Qed.
 
 (* every state in which some thread is neither finished nor waiting for an
    announcement has an enabled step (lock order asyncMutex -> semaphore -> syncMutex) *)
-Theorem no_deadlock s :
-  reachf s -> ~ quiescent s -> exists t, enabled fixed cap s t.
+Theorem no_deadlock cap s :
+  reach fixed cap s -> ~ quiescent s -> exists t, enabled fixed cap s t.
 Proof.
-  intros R NQ. pose proof (invB_reach _ R) as I. pose proof (invA_reach _ R) as A.
+  intros R NQ. pose proof (invB_reach _ _ R) as I. pose proof (invA_reach _ _ R) as A.
   assert (Hex : exists t th, threads s t = Some th /\ idle_pc (t_pc th) = false).
   { destruct A as (A1 & _).
     (* search the finitely many thread ids *)
@@ -737,4 +735,3 @@ Proof.
     + eapply lockS_enabled_or_holder; eauto.
 Qed.
 
-End Fixed.
